@@ -18,13 +18,26 @@ def pop(name, parts, tier, local=False, window=172800, timeout=280, unwind=24):
              models=['m_throw.c', 'm_time.c', 'm_env.c'], libmodels=['m_string.c', 'm_stl.c'], unwind=unwind, cdefs=['VLL_STR_NOGROW', 'VLL_TIME32'], tier=tier, timeout=timeout,
              bounds='pattern "%s" (split parts given), %s, any instant in a %d-second window' % (pattern, 'a local zone at any quarter-hour offset -14h..+14h' if local else 'GMT', window),
              what='real _populate_pre_formatted_string_and_cached_indexes == the plain-C contract used by the format_timestamp queries (cached instant, seconds of day, rendered parts, position and kind of each patchable field)')
+SFT_INIT = r'^_ZN5quill2v96detail14StringFromTime4initENSt7__cxx1112basic_stringIcSt11char_traitsIcESaIcEEENS0_8TimezoneE=vh_sft_init'
+SFT_FMT = r'^_ZN5quill2v96detail14StringFromTime16format_timestampB5cxx11El=vh_sft_format'
+def tsf_ctor(flen, tier, timeout=280):
+    return Q('tsf_ctor_len%d' % flen, 'C13_tsf.cpp', 'h_tsf_ctor', defines=['FLEN=%d' % flen, 'NCALLS=1'], hooks=[SFT_INIT, SFT_FMT], byteloops=True,
+             models=['m_throw.c', 'm_env.c'], libmodels=['m_string.c', 'm_stl.c'], unwind=18, cdefs=['VLL_STR_NOGROW'], tier=tier, timeout=timeout,
+             bounds='every pattern of 0..%d bytes over {%%, Q, m, u, n, s, H, :}, GMT or local' % flen,
+             what='real TimestampFormatter constructor: two different fractional specifiers are refused; otherwise the kind is recorded and StringFromTime::init receives exactly the text before the specifier and (only when non-empty) the text after it, with the configured zone')
+def tsf_fmt(ncalls, nsbits, tier, kind=3, timeout=280):
+    return Q('tsf_format_k%d_n%d_b%d' % (kind, ncalls, nsbits), 'C13_tsf.cpp', 'h_tsf_format', defines=['NCALLS=%d' % ncalls, 'NSBITS=%d' % nsbits, 'KIND=%d' % kind], hooks=[SFT_INIT, SFT_FMT], byteloops=True,
+             forbid=[r'basic_memory_bufferIcLm32ESaIcEE4grow'],
+             models=['m_throw.c', 'm_env.c'], libmodels=['m_string.c', 'm_stl.c'], unwind=18, cdefs=['VLL_STR_NOGROW'], tier=tier, timeout=timeout,
+             bounds='%d call(s), any instant below 2^%d ns, specifier kind %s, with or without a second part' % (ncalls, nsbits, ['none', '%Qms', '%Qus', '%Qns'][kind]),
+             what='real TimestampFormatter::format_timestamp + _write_fractional_seconds + fmtquill::format_int: part1, then exactly 3/6/9 zero-padded digits of the sub-second fraction (truncated, never rounded), then part2; both parts receive floor(ns/1e9)')
 P_HMS = ['%H', ':', '%M', ':', '%S']
 P_12 = ['%I', ':', '%M', ' %p']
 P_LK = ['%l', '%p ', '%k']
 P_WD = ['%u ', '%H', ':', '%M']
 P_EP = ['%s', ' ', '%S']
 P_WN = ['%A ', '%H']
-QUERIES = [sft('hms_gmt', P_HMS, 'quick', ncalls=2, unwind=12), pop('populate_hms_gmt', P_HMS, 'quick'),
+QUERIES = [tsf_ctor(6, 'dev'), tsf_fmt(1, 32, 'dev', kind=1), tsf_fmt(1, 32, 'dev', kind=3), sft('hms_gmt', P_HMS, 'quick', ncalls=2, unwind=12), pop('populate_hms_gmt', P_HMS, 'quick'),
            sft('i_p_gmt', P_12, 'quick', ncalls=2, unwind=12), pop('populate_i_p_local', P_12, 'quick', local=True),
            sft('hms_localany', P_HMS, 'quick', ncalls=2, unwind=12, local=True, tzany=True, timeout=900),
            sft('h_gmt_n3', ['%H'], 'thorough', ncalls=3, unwind=12, timeout=1700), sft('wdname_h_gmt_n3', P_WN, 'quick', ncalls=3, unwind=14, timeout=1200, window=93600), pop('populate_wdname_gmt', P_WN, 'quick'),
